@@ -741,6 +741,10 @@ where
     VL: Decode,
 {
     fn decode_with_param(bits: &usize, bytes: &mut Cursor<&[u8]>) -> Result<Self, CodecError> {
+        if *bits == 0 {
+            // There is no leaf correction word to decode; `bits - 1` below would underflow.
+            return Err(CodecError::UnexpectedValue);
+        }
         let packed_control_len = bits.div_ceil(4);
         let mut packed_control_bits = vec![0u8; packed_control_len];
         bytes.read_exact(&mut packed_control_bits)?;
